@@ -50,7 +50,7 @@ def strip_comments(s):
 
 def functions(text):
     """[(context, name, token-hash)] for every fn in the text"""
-    text = text.replace('\r\n', '\n').split('#[cfg(test)]')[0]
+    text = re.split(r'#\[cfg\(test\)\]\s*mod\s+\w+', text.replace('\r\n', '\n'))[0]   # unit-test modules are not library code
     toks = TOKEN.findall(strip_comments(text))
     res = []
     # context stack of (label, depth)
@@ -150,6 +150,7 @@ RULES = [
     (r'pairings\.rs', r'.*(pow|final_exp|final_exponentiation|miller_loop|frobenius|g_line|g_tangent|eval_g|point_pi|get_fq12|from|bit).*', 'C17'),
     (r'lib\.rs', r'impl Fr\b.*|impl Fq\b.*|impl FromStr for F[rq].*|impl TryFrom .* for F[rq]\b.*|impl From < & ?F[rq] > .*', 'C06 C07 C13'),
     (r'lib\.rs', r'impl Fq2\b.*|impl TryFrom .* for Fq2.*|impl From < Fq2 >.*', 'C12 C14'),
+    (r'lib\.rs', r'::from(#\d+)?', 'C06 C12 C13'),     # `impl From<Fr|&Fr|Fq|Fq2> for [u8; N]` (header contains `;`)
     (r'lib\.rs', r'impl G[12]\b.*::(from_|to_).*', 'C08 C10 C18'),
     (r'lib\.rs', r'impl G[12]\b.*::from_compressed', 'C14'),
     (r'lib\.rs', r'impl G[12]\b.*|impl Group for G[12].*|impl (Add|Sub|Neg|Mul) .*G[12].*', 'C04 C05 C15 C16'),
